@@ -642,6 +642,19 @@ def gen_proxy():
                 N("return getattr(self.__result, name)")]:
         raise Unsupported("__getattr__ guard")
     out.append("Definition getattr_dunder_guard : bool := true.")
+    # f_nocancel: NoCancelFuture.cancel() is the constant False; the wrapper is a MapFuture with identity
+    tn = parse("futures/nocancel.py")
+    c = find(tn, "NoCancelFuture", "cancel")
+    if [ast.unparse(x) for x in strip_doc(c.body)] != [N("return False")]:
+        raise Unsupported("NoCancelFuture.cancel")
+    cls = [n for n in tn.body if isinstance(n, ast.ClassDef) and n.name == "NoCancelFuture"][0]
+    if [ast.unparse(b) for b in cls.bases] != ["MapFuture"] or len([m for m in cls.body if isinstance(m, ast.FunctionDef)]) != 1:
+        raise Unsupported("NoCancelFuture shape")
+    g = find(tn, None, "f_nocancel")
+    if ast.unparse(strip_doc(g.body)[-1]) != N("return track_future(NoCancelFuture(future, lambda x: x), type='nocancel')"):
+        raise Unsupported("f_nocancel")
+    out.append("Definition nocancel_cancel_is_false : bool := true.")
+    out.append("Definition nocancel_is_identity_map : bool := true.")
     emit("ProxyGen.v", "\n".join(out) + "\n")
 
 
@@ -700,7 +713,44 @@ def gen_bind():
     emit("BindGen.v", "\n".join(out) + "\n")
 
 
-KERNELS = [gen_retry, gen_timeout, gen_bool, gen_zip, gen_throttle, gen_proxy, gen_bind]
+def gen_apply():
+    tree = parse("futures/apply.py")
+    out = [HEADER % "more_executors/_impl/futures/apply.py"]
+    f = find(tree, None, "_wrap_args")
+    srcs = [ast.unparse(s) for s in strip_doc(f.body)]
+    if srcs != [N("out = list()"), N("for arg in future_args:\n    out.append((ARGS, arg))"),
+                N("for (key, value) in future_kwargs.items():\n    out.append((key, value))"), N("return out")]:
+        raise Unsupported("_wrap_args")
+    f = find(tree, None, "_wrapped_f_apply")
+    body = strip_doc(f.body)
+    srcs = [ast.unparse(s) for s in body]
+    if srcs[0] != N("if not future_args:\n    return wrap(future_fn).with_map(lambda fn: fn())()"):
+        raise Unsupported("_wrapped_f_apply base case")
+    if srcs[1:4] != [N("future_key_and_x = future_args[0]"), N("(key, future_x) = future_key_and_x"), N("future_args = future_args[1:]")]:
+        raise Unsupported("_wrapped_f_apply head/tail")
+    runner = [s for s in body if isinstance(s, ast.FunctionDef) and s.name == "fn_runner"]
+    if len(runner) != 1:
+        raise Unsupported("fn_runner")
+    inner = [s for s in runner[0].body if isinstance(s, ast.FunctionDef)][0]
+    isrc = [ast.unparse(s) for s in inner.body]
+    if isrc[:2] != [N("args = list(args)"), N("kwargs = kwargs.copy()")] or isrc[-1] != N("return fn(*args, **kwargs)"):
+        raise Unsupported("fn_runner.out frame")
+    iff = inner.body[2]
+    if not isinstance(iff, ast.If) or ast.unparse(iff.test) != N("key is ARGS") or ast.unparse(iff.orelse[0]) != N("kwargs[key] = x"):
+        raise Unsupported("fn_runner.out branches")
+    ins = iff.body[0]
+    if not (isinstance(ins, ast.Expr) and isinstance(ins.value, ast.Call) and ast.unparse(ins.value.func) == "args.insert"
+            and isinstance(ins.value.args[0], ast.Constant) and ast.unparse(ins.value.args[1]) == "x"):
+        raise Unsupported("fn_runner.out insert")
+    out.append("Definition runner_insert_at : nat := %d." % ins.value.args[0].value)
+    if srcs[-2] != N("next_future_fn = wrap(future_x).with_flat_map(lambda x: wrap(future_fn).with_map(lambda fn: fn_runner(fn, x))())()") or \
+            srcs[-1] != N("return _wrapped_f_apply(next_future_fn, future_args)"):
+        raise Unsupported("_wrapped_f_apply recursion")
+    out.append("Definition apply_recurses_on_tail : bool := true.")
+    emit("ApplyGen.v", "\n".join(out) + "\n")
+
+
+KERNELS = [gen_retry, gen_timeout, gen_bool, gen_zip, gen_throttle, gen_proxy, gen_bind, gen_apply]
 
 
 def main():
